@@ -282,7 +282,7 @@ func (tc *taintCtx) call(fn *ssa.Function, ci ssa.CallInstruction, tainted map[s
 			if val == nil {
 				return
 			}
-			if tainted[args[0]] {
+			if tainted[args[0]] && !zeroCapSlice(args[0]) {
 				mark(val)
 			}
 			if len(args) > 1 && tainted[args[1]] {
@@ -435,4 +435,10 @@ func runEngineB(p *Prog, o *obls) {
 			o.ok("B", key, pos, "no flow of "+s.what+" (or of a shallow copy of it) into memory, channels, goroutines or containers that outlive the call; copies go through copy/Clone/append-of-bytes")
 		}
 	}
+}
+
+// zeroCapSlice: s[:0:0] — appending to it always allocates, the result does not alias s.
+func zeroCapSlice(v ssa.Value) bool {
+	sl, ok := v.(*ssa.Slice)
+	return ok && sl.Max != nil && isConstInt(sl.Max, 0)
 }
